@@ -52,25 +52,27 @@ structure Sched.Inv (s : Sched) : Prop where
   notStarted : s.started = false → s.run = .fin
   invalid : s.valid = false → s.started = false
   out : s.st.out = []
+  hasRoot : s.valid = true → (s.prog.task? Generated.startTaskName).isSome = true
 
 theorem Sched.Inv.awaited_perm {s : Sched} (h : s.Inv) : s.st.awaited.Perm s.run.waiting :=
   List.perm_iff_count.2 h.perm
 
 theorem Sched.init_inv (P : Prog) (v : Bool) : (Sched.init P v).Inv :=
   ⟨by simp [Sched.init], by simp [Sched.init], by simp [Sched.init], by simp [Sched.init], by simp [Sched.init],
-   by simp [Sched.init]⟩
+   by simp [Sched.init], by simp [Sched.init]⟩
 
 /-- closing a call keeps the invariant -/
 theorem Sched.finish_inv (s : Sched) (r : Run) (st : St) (hn : r.Norm) (hc : st.stuck = none → r.Clean)
-    (hp : ∀ j, st.awaited.count j = r.waiting.count j) (hs : s.started = true) (hv : s.valid = false → s.started = false) :
+    (hp : ∀ j, st.awaited.count j = r.waiting.count j) (hs : s.started = true) (hv : s.valid = false → s.started = false)
+    (hr : s.valid = true → (s.prog.task? Generated.startTaskName).isSome = true) :
     (s.finish r st).1.Inv := by
   unfold Sched.finish
   split
   · rename_i hfin
     have hr := Run.isFin_eq_true.1 hfin
     subst hr
-    exact ⟨by simp, by simp, by simpa using hp, by simp [hs], by simpa using hv, by simp⟩
-  · exact ⟨by simpa using hn, by simpa using hc, by simpa using hp, by simp [hs], by simpa using hv, by simp⟩
+    exact ⟨by simp, by simp, by simpa using hp, by simp [hs], by simpa using hv, by simp, by simpa using hr⟩
+  · exact ⟨by simpa using hn, by simpa using hc, by simpa using hp, by simp [hs], by simpa using hv, by simp, by simpa using hr⟩
 
 theorem Sched.begin_inv (s : Sched) (ee : EE) (fuel : Nat) (h : s.Inv) (hs : s.started = false) (hv : s.valid = true) :
     (s.begin ee fuel).1.Inv := by
@@ -79,7 +81,7 @@ theorem Sched.begin_inv (s : Sched) (ee : EE) (fuel : Nat) (h : s.Inv) (hs : s.s
   have haw : ∀ j, s.st.awaited.count j = 0 := by intro j; rw [h.perm j, hfin]; simp
   split
   · exact ⟨by simp, fun hst => absurd hst (by simpa using St.setStuck_stuck_ne s.st .raised),
-      by simpa using haw, by simp, by simp [hv], by simpa using h.out⟩
+      by simpa using haw, by simp, by simp [hv], by simpa using h.out, by simpa using h.hasRoot⟩
   · rename_i t _
     apply Sched.finish_inv
     · exact enterBlk_norm ..
@@ -92,6 +94,7 @@ theorem Sched.begin_inv (s : Sched) (ee : EE) (fuel : Nat) (h : s.Inv) (hs : s.s
       rw [this, haw j]; simp
     · simp
     · simp [hv]
+    · simpa using h.hasRoot
 
 theorem Sched.fire_inv (s : Sched) (ee : EE) (fuel : Nat) (e : Event) (h : s.Inv) : (s.fire ee fuel e).sched.Inv := by
   unfold Sched.fire
@@ -127,6 +130,7 @@ theorem Sched.fire_inv (s : Sched) (ee : EE) (fuel : Nat) (e : Event) (h : s.Inv
           omega
         · exact hstarted
         · exact h.invalid
+        · exact h.hasRoot
       · exact h
     · exact h
   · exact h
@@ -135,7 +139,7 @@ theorem Sched.start_inv (s : Sched) (ee : EE) (fuel : Nat) (h : s.Inv) : (s.star
   unfold Sched.start
   split
   · split
-    · have h' : ({ s with running := true } : Sched).Inv := ⟨h.norm, h.clean, h.perm, h.notStarted, h.invalid, h.out⟩
+    · have h' : ({ s with running := true } : Sched).Inv := ⟨h.norm, h.clean, h.perm, h.notStarted, h.invalid, h.out, h.hasRoot⟩
       exact Sched.fire_inv _ ee fuel .start h'
     · exact h
   · exact h
@@ -148,15 +152,15 @@ theorem Sched.step_inv (s : Sched) (ee : EE) (fuel : Nat) (op : Op) (h : s.Inv) 
     simp only [Sched.step, Sched.register]
     split
     · exact h
-    · exact ⟨h.norm, h.clean, h.perm, h.notStarted, h.invalid, h.out⟩
-  | attach o => exact ⟨h.norm, h.clean, h.perm, h.notStarted, h.invalid, h.out⟩
+    · exact ⟨h.norm, h.clean, h.perm, h.notStarted, h.invalid, h.out, h.hasRoot⟩
+  | attach o => exact ⟨h.norm, h.clean, h.perm, h.notStarted, h.invalid, h.out, h.hasRoot⟩
   | detach o =>
     simp only [Sched.step, Sched.detach]
     split
     · rename_i s' heq
       split at heq
       · simp at heq; subst heq
-        exact ⟨h.norm, h.clean, h.perm, h.notStarted, h.invalid, h.out⟩
+        exact ⟨h.norm, h.clean, h.perm, h.notStarted, h.invalid, h.out, h.hasRoot⟩
       · simp at heq
     · exact h
 
